@@ -328,6 +328,21 @@ def run_input_stream(W, rec):
                 declared = "invalid"
         got_exc = None
         data = None
+        if (hash((cl, chunked, terminated, maxlen, safe)) & 3) == 0:
+            # the environ was already looked at with other values (a middleware rewrote body and length since)
+            before = dict(env)
+            before["wsgi.input"] = Blocking(b"0123456789abcdefghijklmnopqrstuvwxyz", True)
+            before["CONTENT_LENGTH"] = "30"
+            before.pop("HTTP_TRANSFER_ENCODING", None)
+            try:
+                get_input_stream(before, safe_fallback=True, max_content_length=None).read(4)
+            except Exception:  # noqa: BLE001
+                pass
+            for k2 in list(before):
+                if k2 not in env and k2 not in ("wsgi.input", "CONTENT_LENGTH"):
+                    env[k2] = before[k2]  # whatever the first look left behind in the environ
+            rec.observe("reused_environ_cells")
+            case["reused_environ"] = True
         try:
             st = get_input_stream(env, safe_fallback=safe, max_content_length=maxlen)
             data = st.read()
